@@ -65,17 +65,21 @@ def gen_map(rnd):
     return dict(prog=prog, cond=cond)
 
 
-def build_map(spec):
+def build_map(spec, m=None):
     from amoco.cas.mapper import mapper
     from amoco.cas import expressions as E
 
-    m = mapper()
+    if m is None:
+        m = mapper()
     with E.is_reg_flags:
         fl = E.reg("flags", 32)
     zf = E.slc(fl, 6, 1, "zf")
     for ins in spec["prog"]:
         if ins[0] == "reg":
             m[E.reg(ins[1], 32)] = m(R.build(ins[2]))
+        elif ins[0] == "ptr":
+            # data register <- pointer register + offset
+            m[E.reg(ins[1], 32)] = m(E.reg(ins[2], 32) + ins[3])
         elif ins[0] == "mem":
             sz = ins[4] if len(ins) > 4 else 32
             m[E.mem(E.reg(ins[1], 32), sz, disp=ins[2])] = m(R.build(ins[3]))[0:sz]
@@ -247,7 +251,96 @@ def check(case):
     return fails, stats
 
 
+def check_nested(case):
+    """two-level merge: m12 = merge(m1, m2); the instructions of `ext` are applied to m12 (stores through the data register
+    that m1 and m2 set to different pointers); final = merge(m3, m12+ext) or merge(m12+ext, m3). On a concrete state the
+    candidates of each of the two merged maps (m12+ext holds alternatives itself) must be among the candidates of the merge,
+    byte by byte over the whole arena and for every data register. (Whether m12+ext covers the paths m1;ext and m2;ext is the
+    store semantics through an ambiguous pointer, not the merge: not judged here.)"""
+    from amoco.config import conf
+    from amoco.cas.mapper import merge
+    from amoco.cas import expressions as E
+
+    fails = []
+    stats = dict(checked=0, unknown=0, incon=0)
+    old = conf.Cas.complexity
+    conf.Cas.complexity = case["complexity"]
+    try:
+        try:
+            m12 = merge(build_map(case["m1"]), build_map(case["m2"]))
+            m12e = build_map(case["ext"], m12)
+            m3 = build_map(case["m3"])
+            mm = merge(m3, m12e) if case["m3first"] else merge(m12e, m3)
+        except Exception as x:
+            return [(bucket_of_exception("raise:merge", x) + ":nested", repr(x))], stats
+        # the two merged maps are m12+ext (itself holding alternatives) and m3: on a concrete state the candidates of
+        # each must be among the candidates of the merge
+        origs = [("m12ext", m12e), ("m3", m3)]
+        for k, (nm, om) in enumerate(origs):
+            vals = dict(case["states"][0])
+            vals.update(PVAL)
+            memb = bytes.fromhex(case["mem"])
+            try:
+                ck = sigma(vals, memb) >> om
+                cmm = sigma(vals, memb) >> mm
+            except Exception as x:
+                fails.append((bucket_of_exception("raise:compose", x) + ":nested", repr(x)))
+                continue
+            locs = [("reg", r) for r in DREGS] + [("mem", a) for a in range(0x2000, 0x2140)]
+            for l in locs:
+                try:
+                    v = read_loc(ck, l)
+                    vm = read_loc(cmm, l)
+                except Exception as x:
+                    fails.append((bucket_of_exception("raise:read", x) + ":nested", repr(x)))
+                    break
+                co = candidates(v)
+                c = candidates(vm)
+                if c is None:
+                    stats["unknown"] += 1
+                    continue
+                if co is None or co == "incon" or c == "incon":
+                    stats["incon"] += 1
+                    continue
+                stats["checked"] += 1
+                if not co <= c:
+                    fails.append(("nested-missing-%s:%s:%s" % (nm, l[0], "m3-first" if case["m3first"] else "m3-second"),
+                                  "location %r: %s gives %s, merged candidates %s; merged entry: %s" % (l, nm, sorted(hex(x) for x in co), sorted(hex(x) for x in c), str(vm)[:200])))
+                    break
+    finally:
+        conf.Cas.complexity = old
+    return fails, stats
+
+
+def gen_nested(rnd):
+    def small_map():
+        prog = []
+        for _ in range(rnd.randrange(0, 3)):
+            if rnd.random() < 0.6:
+                prog.append(["reg", DREGS[rnd.randrange(4)], gen_exp(rnd, rnd.randrange(0, 2))])
+            else:
+                pr = PREGS[rnd.randrange(2)]
+                prog.append(["mem", pr, [0, 4, 8][rnd.randrange(3 if pr == "p" else 2)], gen_exp(rnd, 1), 32])
+        return prog
+
+    m1 = dict(prog=small_map() + [["ptr", "x", "p", 4 * rnd.randrange(0, 3)]], cond=None)
+    m2 = dict(prog=small_map() + [["ptr", "x", ["p", "q"][rnd.randrange(2)], 4 * rnd.randrange(0, 3)]], cond=None)
+    ext = []
+    for _ in range(rnd.randrange(1, 4)):
+        if rnd.random() < 0.7:
+            ext.append(["mem", "x", 4 * rnd.randrange(0, 3), gen_exp(rnd, 1), 32])
+        else:
+            ext.append(["reg", DREGS[rnd.randrange(4)], gen_exp(rnd, 1)])
+    m3 = dict(prog=small_map() + ([["mem", "p", 4 * rnd.randrange(0, 5), gen_exp(rnd, 0), 32]] if rnd.random() < 0.7 else []), cond=None)
+    st_ = {r: [0, 1, 0x80000000, rnd.getrandbits(32)][rnd.randrange(4)] for r in DREGS}
+    st_["flags"] = rnd.getrandbits(32)
+    return dict(kind="nested", m1=m1, m2=m2, ext=dict(prog=ext, cond=None), m3=m3, m3first=rnd.random() < 0.5, complexity=[0, 0, 30, 100][rnd.randrange(4)],
+                states=[st_], mem=bytes(rnd.getrandbits(8) for _ in range(0x200)).hex())
+
+
 def gen_case(rnd):
+    if rnd.random() < 0.25:
+        return gen_nested(rnd)
     m1, m2 = gen_map(rnd), gen_map(rnd)
     states = []
     for _ in range(2):
@@ -270,11 +363,16 @@ def run_shard(shard, tier, seed):
     def body(rnd):
         case = gen_case(rnd)
         try:
-            fails, stats = check(case)
+            fails, stats = check_nested(case) if case.get("kind") == "nested" else check(case)
         except Exception as x:
             fails, stats = [(bucket_of_exception("raise:build", x), repr(x))], {}
-        part.case(dict(m1=case["m1"], m2=case["m2"], w=case["widening"], c=case["complexity"]), nontrivial(case),
-                  dict(m1=case["m1"], m2=case["m2"], widening=case["widening"], complexity=case["complexity"]))
+        if case.get("kind") == "nested":
+            part.case(dict(k="nested", m1=case["m1"], m2=case["m2"], e=case["ext"], m3=case["m3"], f=case["m3first"], c=case["complexity"]), True,
+                      dict(kind="nested", m1=case["m1"]["prog"], m2=case["m2"]["prog"], ext=case["ext"]["prog"], m3=case["m3"]["prog"], m3first=case["m3first"]))
+            part.count("nested-merge-cases")
+        else:
+            part.case(dict(m1=case["m1"], m2=case["m2"], w=case["widening"], c=case["complexity"]), nontrivial(case),
+                      dict(m1=case["m1"], m2=case["m2"], widening=case["widening"], complexity=case["complexity"]))
         for k, v in stats.items():
             part.count("locations_" + k, v)
         seen = set()
@@ -289,7 +387,7 @@ def run_shard(shard, tier, seed):
 
 def replay(case):
     try:
-        fails, _ = check(case)
+        fails, _ = check_nested(case) if case.get("kind") == "nested" else check(case)
     except Exception as x:
         return (bucket_of_exception("raise:build", x), repr(x))
     return fails[0] if fails else None
@@ -306,7 +404,7 @@ def shrink(case, bucket):
         return any(b == bucket for b, _ in f)
 
     c = dict(case)
-    if not fails_with(c):
+    if case.get("kind") == "nested" or not fails_with(c):
         return case
     for key in ("m1", "m2"):
         def fl(p, key=key):
